@@ -342,7 +342,7 @@ def run_relax(case):
                         nfail += 1
             if cls == "lin" and np.nanmax(np.abs(obs[:, 3])) > 1e-9:
                 chi_nonzero += 1
-            if 0.0 < np.nanmin(obs[:, 2]) and np.nanmax(obs[:, 2]) < 1.0:
+            if np.any((obs[:, 2] > 0.0) & (obs[:, 2] < 1.0)):
                 q_mixed += 1
             h.update(np.round(np.nan_to_num(obs, nan=-7.0), 9).tobytes())
         if nfile:
@@ -358,7 +358,7 @@ def run_relax(case):
     R.transitions = transitions + len(case["prefix"])
     R.elem = rows
     # some state has a non-zero chi4 (needs origins with different overlap) / for the single-origin variant an overlap strictly
-    # between 0 and 1 in every row
+    # between 0 and 1 in some row
     R.nontrivial = (chi_nonzero > 0) if case["calls"] != ["log"] else (q_mixed > 0)
     R.notes = {"skipped_q": skipped_q, "varied_nl": varied_nl}
     return R
